@@ -51,6 +51,8 @@ Record obs := mkObs {
 Record case := mkCase {
   c_id : N;
   c_exact : bool;           (* harness flag --exact: compare every observable with the model *)
+  c_coded : list class;     (* the keys of errorsToCode in the tree under test (read from the source by
+                               the harness on every run; the model's list when it cannot be read) *)
   c_leaf : leaf;
   c_ctx : ctx;              (* outermost frame first *)
   c_built : bool;           (* false: an EmbedObject call panicked (the rest is then ignored) *)
@@ -66,6 +68,10 @@ Record case := mkCase {
 }.
 
 Definition TB := std_tables.
+
+(* the keys of errorsToCode in the hand-written copy *)
+Definition std_coded : list class :=
+  filter (fun c => match to_code TB c with Some _ => true | None => false end) all_classes.
 
 Definition observe (e : option err) : obs :=
   mkObs (match e with None => true | Some _ => false end)
@@ -159,13 +165,12 @@ Definition check_exact (c : case) : bool :=
   end.
 
 (** the property itself, evaluated on what the implementation did; the model
-    is only used to say which classes have a code today and which texts are
-    plain (no ESC byte, so that no marker constant containing ESC occurs in them) *)
+    is only used to say which texts are plain (no ESC byte, so that no marker constant containing ESC occurs in them) *)
 Definition plain_msg (m : msg) : bool :=
   forallb (fun t => match t with Text s => no_esc s | Marker => false | _ => true end) m.
 
 Definition plain_ctx (x : ctx) : bool :=
-  forallb (fun f => match f with FWrap t => plain_msg t | FEmbed _ => true end) x.
+  forallb (fun f => match f with FWrap t => plain_msg t | FGlue t => plain_msg t | FEmbed _ => true end) x.
 
 (* indistinguishable by class, code and extracted object *)
 Definition obs_core_eqb (a b : obs) : bool :=
@@ -178,9 +183,8 @@ Definition is_some_class (o : option class) : bool :=
 Definition check_property (c : case) : bool :=
   match c_leaf c with
   | LSentinel cl =>
-      match to_code TB cl with
-      | None => true                           (* a class without a code: outside the statement *)
-      | Some _ =>
+      if negb (existsb (class_eqb cl) (c_coded c)) then true   (* a class without a code: outside the statement *)
+      else
           if c_built c then
             (* the class, and no other class, after GRPCWrap and on the other side *)
             negb (o_nil (c_w c)) && class_list_eqb (o_is (c_w c)) [cl]
@@ -203,7 +207,6 @@ Definition check_property (c : case) : bool :=
             (* EmbedObject may refuse texts with markers and second embeds, not a
                first embed into plain texts *)
             negb (plain_ctx (c_ctx c) && Nat.leb (length (ctx_embeds (c_ctx c))) 1)
-      end
   | LStatus k _ =>
       (* every non-OK code maps back to a class, never to nil *)
       if c_built c && negb (code_eqb k OK) then is_some_class (o_from (c_e c)) else true
